@@ -26,7 +26,8 @@ META = {
                   "string values and names with any characters, which are percent-encoded; guard geo_ok: names distinct and not reserved by the "
                   "format); attribute name/type/arity and dense values (corollary; a scalar equal to the default reads back as the default); "
                   "interoperability both ways with independent reference codecs for xyz, obj, off, tet, Medit; extension dispatch; "
-                  "ignore_elements; kinds a format cannot express are absent (corollary); the loaded class is the one the content implies. "
+                  "ignore_elements; kinds a format cannot express are absent (corollary); the loaded class is the one the content implies; "
+                  "load(path, dim=d) with d not above the content's dimension gives the same class (dim is a lower bound, nothing is dropped). "
                   "PARTIAL: geogram_ascii interoperability (proved: an independent count-driven reader cuts mouette's file exactly into the "
                   "attribute sets / attributes written, i.e. declared counts are consistent; the converse, and a file written by geogram "
                   "itself, are compared per run with the model's parser); STL (binary32 triangle soup of triangle meshes through a reader of "
@@ -40,7 +41,13 @@ META = {
                   "not modify the mesh; the optional parts an independent writer may emit (OFF colours/comments/inline counts, OBJ o g s "
                   "usemtl mtllib vt vn, v/vt/vn forms, polylines, Medit optional sections/labels/indentation, xyz count line/extra columns); "
                   "an edited/malformed stream; third-party files; float('{}'.format(x)) == x and urllib quote/unquote (hypotheses of the "
-                  "theorems; 10^5 doubles in the thorough tier).",
+                  "theorems; 10^5 doubles in the thorough tier); SESSIONS: in every format two meshes are saved and loaded several times in ONE "
+                  "process (every call form of save/load, upper-case extension, explicit dim 0..3, calls that raise in between, a loaded "
+                  "mesh edited in place, connectivity queried before saving, the loaded mesh saved and loaded again): objects and calls of "
+                  "a session do not influence each other; the data handed over as python / numpy scalars and rows (int32, int64, uint8, "
+                  "integer coordinates), vertex indices beyond 256, coincident vertices, string attributes of arity >= 2 with the "
+                  "characters special in a geogram file. The translator also fails closed on decorators it does not know, mutable "
+                  "default arguments, global / module-level mutable state in the codec files.",
     "level_note": "Trusted: Coq kernel + vm_compute; the fail-closed translator vf/translate/c04.py (its output is exercised by the "
                   "correspondence); the harness (generators, tokeniser, driver canonicalisation: floats as bit patterns, a float text is "
                   "identified with the double it denotes); CPython/numpy float and complex text round trip (section hypotheses rf_pf, rc_pc); "
@@ -75,7 +82,8 @@ def b2f(b):
 
 
 SPECIAL = [0.0, -0.0, 1.0, -1.0, 0.5, 0.1, 1 / 3, -2.75, 5e-324, -5e-324, 2.2250738585072014e-308, 1e-310,
-           1.7976931348623157e308, -1.7976931348623157e308, 1e300, 1e22, 1e16, 123456789.125, 2.0 ** 53, 1e-7, 3.0, 2.0, -3.5]
+           1.7976931348623157e308, -1.7976931348623157e308, 1e300, 1e22, 1e16, 123456789.125, 2.0 ** 53, 1e-7, 3.0, 2.0, -3.5, 1e39, -1e39,
+           3.4028234663852886e38, 1e-46]
 
 
 def rand_float(rng, style):
@@ -93,9 +101,12 @@ def rand_float(rng, style):
 
 
 # ---------------------------------------------------------------------- mesh generator (raw data handed to mouette)
-def gen_mesh(rng):
-    kind = rng.choice(["cloud", "polyline", "tri", "tri", "quad", "mixed", "polygon", "tet", "tet", "hex", "tethex", "surf+edges", "empty"])
-    style = rng.choice(["small", "small", "dyadic", "special", "any"])
+def gen_mesh(rng, kind=None):
+    kind = kind or rng.choice(["cloud", "polyline", "tri", "tri", "quad", "mixed", "polygon", "tet", "tet", "hex", "tethex", "surf+edges", "empty"])
+    style = rng.choice(["small", "small", "dyadic", "special", "any", "coincident"])
+    big = kind.startswith("big-")       # vertex indices beyond 256 (and beyond one byte / small-int identity)
+    if big:
+        kind = kind[4:]
     nv = 0 if kind == "empty" else rng.choice([1, 2, 3, 4, 5, 6, 8, 9, 12])
     if kind in ("tri", "quad", "mixed", "polygon", "surf+edges"):
         nv = max(nv, 6 if kind == "polygon" else 4)
@@ -105,16 +116,33 @@ def gen_mesh(rng):
         nv = max(nv, 9)
     if kind == "polyline":
         nv = max(nv, 2)
-    V = [[f2b(rand_float(rng, style)) for _ in range(3)] for _ in range(nv)]
+    edge255 = big and rng.random() < 0.3      # exactly 256 vertices, indices handed over as uint8: 255 is the last value of the type
+    if big:
+        nv = 256 if edge255 else rng.randint(259, 266)
+        style = "small"
+    if style == "coincident":
+        # valid combinatorics on degenerate geometry: all vertices at one point, or a few distinct positions shared by all
+        pool = [[f2b(rand_float(rng, "dyadic")) for _ in range(3)] for _ in range(rng.choice([1, 1, 2, 3]))]
+        V = [list(rng.choice(pool)) for _ in range(nv)]
+    else:
+        V = [[f2b(rand_float(rng, style)) for _ in range(3)] for _ in range(nv)]
     E, F, C = [], [], []
 
     def face(k):
-        return rng.sample(range(nv), k)
+        if big:    # mostly high indices, sometimes vertex 0
+            pool = [x for x in list(range(247, nv)) + [0, 1, 255, 256, 257] if x < nv]
+            f = rng.sample(sorted(set(pool)), k)
+            if edge255 and 255 not in f:
+                f[rng.randrange(k)] = 255
+            return f
+        f = rng.sample(range(nv), k)
+        if rng.random() < 0.3 and 0 not in f:
+            f[rng.randrange(k)] = 0          # vertex 0 takes part (first, middle or last corner)
+        return f
 
     if kind == "polyline":
         for _ in range(rng.randint(1, 6)):
-            a, b = rng.sample(range(nv), 2)
-            E.append([a, b])
+            E.append(face(2))
     if kind in ("tri", "mixed", "surf+edges"):
         F += [face(3) for _ in range(rng.randint(1, 6))]
     if kind in ("quad", "mixed"):
@@ -125,18 +153,27 @@ def gen_mesh(rng):
         rng.shuffle(F)
     if kind == "surf+edges":
         for _ in range(rng.randint(1, 3)):
-            a, b = rng.sample(range(nv), 2)
-            E.append([a, b])
+            E.append(face(2))
     if kind in ("tet", "tethex"):
         C += [face(4) for _ in range(rng.randint(1, 4))]
     if kind in ("hex", "tethex"):
         C += [face(8) for _ in range(rng.randint(1, 2))]
     if kind == "tethex":
         rng.shuffle(C)
-    # dedupe exact duplicates of edges (prepare keeps them, fine) - nothing to do
-    out = {"kind": kind, "style": style, "V": V, "E": E, "F": F, "C": C}
+    out = {"kind": ("big-" if big else "") + kind, "style": style, "V": V, "E": E, "F": F, "C": C}
     if F and rng.random() < 0.3:
         out["hard_set"] = [rng.randrange(0, 3 * len(F) + len(E) + 1) for _ in range(rng.randint(1, 3))]   # some completed edges flagged hard too
+        if rng.random() < 0.5:
+            out["hard_set"].append(0)      # edge 0 is the hard one
+    # the representation in which the caller hands the data over (python / numpy scalars and rows)
+    r = rng.random()
+    if edge255:
+        out["idx_repr"] = "npu8"
+    elif r < 0.45:
+        out["idx_repr"] = rng.choice(["np32", "np64", "npu8", "npscalars", "tuple"])
+    r = rng.random()
+    if r < 0.35:
+        out["v_repr"] = rng.choice(["list", "nprow", "int"])
     return out
 
 
@@ -158,25 +195,40 @@ def gen_aval(rng, ty):
     return rng.choice(WORDS)
 
 
-def gen_attrs(rng, mesh):
-    """random attributes on the containers of the mesh (created by the driver once the mesh is prepared)"""
+def gen_attrs(rng, mesh, stress=False):
+    """random attributes on the containers of the mesh (created by the driver once the mesh is prepared).
+    stress: on every container a string attribute of arity 2 or 3 whose values hold the characters that are special in a
+    geogram file, and one numeric vector attribute (every type x arity >= 2 goes through the vector branch of the exporter)."""
     out = {}
     names = ["att", "w", "flag", "label", "uv", "k2", "normals_", "my attr".replace(" ", "_")]
+    special = [w for w in WORDS if any(c in w for c in "#%[ \n\t\"") or w == ""]
     for ck in ("V", "E", "F", "FC", "C", "CC", "CF"):
-        if rng.random() < 0.55:
+        if not stress and rng.random() < 0.55:
             continue
         lst = []
         picked = rng.sample(names, rng.choice([1, 1, 2]))
         if rng.random() < 0.35:
             picked.append(rng.choice(NAME_EXTRA))
-        for name in picked:
-            ty = rng.choice(ATYPES)
-            ar = rng.choice([1, 1, 1, 2, 3])
+        plan = [(name, rng.choice(ATYPES), rng.choice([1, 1, 1, 2, 3])) for name in picked]
+        if stress:
+            plan = [("tags", "String", rng.choice([2, 3])), ("vec", rng.choice(["Bool", "Int", "Float", "Complex"]), rng.choice([2, 3])),
+                    ("one", "String", 1)]
+        for name, ty, ar in plan:
             dense = rng.random() < 0.3
             vals = []
-            for k in sorted(rng.sample(range(40), rng.randint(0, 8))):
-                vals.append([k, [gen_aval(rng, ty) for _ in range(ar)]])
-            lst.append({"name": name + "_" + ck.lower(), "type": ty, "arity": ar, "dense": dense, "vals": vals})
+            # element 0 carries a value in most cases; keys stay within the sizes small meshes have (the driver drops the others)
+            keys = set(rng.sample(range(14), rng.randint(0, 6))) | set(rng.sample(range(40), rng.randint(0, 2)))
+            if rng.random() < 0.6 or stress:
+                keys.add(0)
+            for k in sorted(keys):
+                if stress and ty == "String":
+                    vals.append([k, [rng.choice(special if rng.random() < 0.7 else WORDS) for _ in range(ar)]])
+                else:
+                    vals.append([k, [gen_aval(rng, ty) for _ in range(ar)]])
+            a = {"name": name + "_" + ck.lower(), "type": ty, "arity": ar, "dense": dense, "vals": vals}
+            if rng.random() < 0.3:
+                a["np"] = True       # values handed over as numpy scalars / arrays
+            lst.append(a)
         out[ck] = lst
     return out
 
@@ -465,7 +517,7 @@ def oracle_geogram_attrs(mi, adj, got, ignore):
             dv = dense_from_sparse(b, sizes[ck])
             if [norm_val(v) for v in dv] != [norm_val(v) for v in vals]:
                 return "values of attribute %r of %s differ after save/load: saved %s, loaded %s" % (name, ck, json.dumps(vals)[:200], json.dumps(dv)[:200])
-        if ck == "CF" and C and all(len(c) == 4 for c in C):
+        if ck == "CF" and C and all(len(c) == 4 for c in C) and adj != "not compared":
             if "opposite_cell" not in back:
                 return "cell adjacency is not read back"
             dv = dense_from_sparse(back["opposite_cell"], sizes["CF"])
@@ -1246,12 +1298,17 @@ def oracle_stl(job, res):
 # ---------------------------------------------------------------------- case building
 def save_job(mesh, fmt, cfg, ignore=None):
     j = {"k": "save", "fmt": fmt, "mesh": {k: mesh[k] for k in ("V", "E", "F", "C")}, "cfg": cfg}
-    if mesh.get("hard_set"):
-        j["mesh"]["hard_set"] = mesh["hard_set"]
+    for k in ("hard_set", "idx_repr", "v_repr"):
+        if mesh.get(k):
+            j["mesh"][k] = mesh[k]
     if mesh.get("attrs"):
         j["mesh"]["attrs"] = mesh["attrs"]
     if ignore is not None:
         j["ignore"] = ignore
+        if mesh.get("ignore_form"):
+            j["ignore_form"] = mesh["ignore_form"]
+        if mesh.get("ignore_positional"):
+            j["ignore_positional"] = True
     return j
 
 
@@ -1350,15 +1407,105 @@ def shrink_mesh(mesh, fails):
     return cur
 
 
+# ---------------------------------------------------------------------- sessions: several saves / loads in one process
+def gen_sessions(rng, n_per_fmt):
+    """two meshes per session, saved and loaded in the same format in one process (driver: run_session)"""
+    out = []
+    for fmt in TEXT_FORMATS + ["stl"]:
+        for i in range(n_per_fmt):
+            ms = []
+            for _ in range(2):
+                for _try in range(200):
+                    m = gen_mesh(rng)
+                    if m["kind"].startswith("big"):
+                        continue
+                    if fmt == "stl" and not (m["F"] and all(len(f) == 3 for f in m["F"]) and m["style"] in ("small", "dyadic", "coincident")):
+                        continue     # stl_reader aborts on an empty file; quads are the known finding
+                    if fmt == "off" and any(len(f) < 3 for f in m["F"]):
+                        continue
+                    break
+                mm = {k: m[k] for k in ("V", "E", "F", "C")}
+                for k in ("hard_set", "idx_repr", "v_repr"):
+                    if m.get(k):
+                        mm[k] = m[k]
+                if fmt == "geogram_ascii" and rng.random() < 0.7:
+                    mm["attrs"] = gen_attrs(rng, m, stress=rng.random() < 0.4)
+                ms.append(mm)
+            # the second file must not be a prefix / copy of the first: different vertex counts make sharing visible
+            out.append({"k": "session", "fmt": fmt, "meshes": ms, "cfg": gen_cfg(rng) if rng.random() < 0.3 else {},
+                        "forms": [rng.randrange(30) for _ in range(12)], "warm": rng.random() < 0.5,
+                        "upper": rng.choice([None, None, None, "first", "second"])})
+    return out
+
+
+def session_subjob(job, k):
+    return {"k": "save", "fmt": job["fmt"], "mesh": job["meshes"][k], "cfg": job.get("cfg") or {}}
+
+
+def oracle_session(job, r):
+    """[(step, message)] for a session result: every record through the save/load oracle, every yes/no check, the explicit dim"""
+    fmt = job["fmt"]
+    if "driver_exc" in r:
+        return [("driver", "the session died: %s" % json.dumps(r["driver_exc"])[:200])]
+    if "build_exc" in r:
+        return []
+    out = []
+    for tag, sub in (("first mesh", session_subjob(job, 0)), ("second mesh (saved and loaded in the same process)", session_subjob(job, 1))):
+        rec = r["A" if tag == "first mesh" else "B"]
+        if reserved_names_used(sub):
+            continue
+        m = oracle_any(sub, rec)
+        if m and not (fmt == "stl" and m.startswith("quad faces")):
+            out.append((tag, m))
+    for c in r["checks"]:
+        if not c[1] and (len(c) < 3 or c[2] != "soft"):
+            out.append(("check", c[0]))
+    if "second" in r and not reserved_names_used(session_subjob(job, 0)):
+        sub = {"k": "save", "fmt": fmt, "mesh": {"attrs": {}}, "cfg": job.get("cfg") or {}}
+        rec = r["second"]
+        if fmt == "geogram_ascii":
+            # the loaded mesh carries what the importer stores of the format's own tables under the names the exporter recomputes
+            # (among them 'opposite_cell', the importer's copy of the cell adjacency: saved again it is written as a user attribute
+            # next to the recomputed adjacency - the reserved-name finding; the adjacency itself is compared in the first generation)
+            rec = dict(rec, adj="not compared", mesh_in=dict(rec["mesh_in"], attrs={ck: [a for a in al if a[0] not in GEO_RESERVED.get(ck, [])]
+                                                              for ck, al in (rec["mesh_in"].get("attrs") or {}).items()}))
+        m = oracle_any(sub, rec)
+        if m and not (fmt == "stl" and m.startswith("quad faces")):
+            out.append(("second generation (the loaded mesh saved and loaded again)", m))
+    # explicit dim: a lower bound, never a cap
+    recA = r["A"]
+    if "raw" in (recA.get("load") or {}):
+        base = recA["load"].get("class")
+        bd = {v: k for k, v in CLASS.items()}.get(base)
+        for d, cls, same in r.get("dims") or []:
+            if bd is None:
+                continue
+            want = CLASS[max(d, bd)]
+            if cls != want:
+                out.append(("dim", "load(path, dim=%d) of a file whose content is a %s gives a %s, expected %s (dim is a lower bound: nothing may be dropped)"
+                            % (d, base, cls, want)))
+            elif not same:
+                out.append(("dim", "load(path, dim=%d) does not hold the vertices / faces / cells of load(path)" % d))
+    fc = r.get("failed_calls") or []
+    for what, e in fc:
+        if e is None and what in ("load of a missing file", "save under an unknown extension", "load under an unknown extension",
+                                  "save into a missing directory"):
+            out.append(("failed-call", "%s did not raise" % what))
+    return out
+
+
 # ---------------------------------------------------------------------- the check
 def run(ctx):
     quick = ctx.tier == "quick"
-    n_mesh = 40 if quick else 400
+    n_mesh = 40 if quick else 360
     ctx.rule = ("meshes built by mouette itself (RawMeshData.prepare) from generated vertex/edge/face/cell lists: point clouds, "
                 "polylines, triangle / quad / mixed / polygon surfaces, surfaces with explicit edges, tetrahedral, hexahedral and mixed "
                 "volumes, the empty mesh; 0-12 vertices; coordinates small integers, dyadic, special doubles (-0.0, subnormal, 1e308, 1e-310) "
                 "or arbitrary finite bit patterns; config switches complete_edges_from_faces / export_edges_in_obj / "
-                "complete_faces_from_cells; ignore_elements. Each mesh is saved in every format. Non-trivial = the mesh has at least one "
+                "complete_faces_from_cells; ignore_elements (as set / frozenset / list / tuple / dict, by keyword or position); indices and "
+                "coordinates handed over as python or numpy values; coincident vertices; meshes with vertex indices beyond 256; string "
+                "attributes of arity 2-3 with #, %xx, blanks, [..] in their values; sessions of ~6 saves and ~14 loads in one process "
+                "per format. Each mesh is saved in every format. Non-trivial = the mesh has at least one "
                 "edge, face or cell; distinct = by canonical JSON of (mesh, format, switches)")
     ctx.assumptions += ["vertices are 3-vectors of finite binary64 values (NaN / inf excluded)",
                        "float(text) of '{}'.format(x) gives back x bit for bit (CPython/numpy shortest repr): section hypothesis of the "
@@ -1403,18 +1550,34 @@ def run(ctx):
         m = gen_mesh(ctx.rng)
         m["cfg"] = gen_cfg(ctx.rng)
         if ctx.rng.random() < 0.08:
-            m["ignore"] = ctx.rng.choice([["faces"], ["edges"], ["cells"], ["edges", "faces"], []])
+            m["ignore"] = ctx.rng.choice([["faces"], ["edges"], ["cells"], ["edges", "faces"], ["cells", "faces", "edges"], []])
+            m["ignore_form"] = ctx.rng.choice(["set", "set", "frozenset", "list", "tuple", "dict", "keys"])   # any collection supporting `in`
+            m["ignore_positional"] = ctx.rng.random() < 0.4
         if ctx.rng.random() < 0.7:
             m["gattrs"] = gen_attrs(ctx.rng, m)
         meshes.append(m)
+    # always present: vertex indices beyond 256, and attribute stress (string attributes of arity >= 2 with the characters that are
+    # special in a geogram file, on every container of a surface and of a volume)
+    for kind in (["big-tri"] if quick else ["big-tri", "big-tet", "big-polyline", "big-mixed", "big-hex"]):
+        m = gen_mesh(ctx.rng, kind)
+        m["cfg"] = {}
+        if quick:      # three formats per run (the terms are large), all of them in the thorough tier
+            m["only_fmts"] = ctx.rng.sample(["obj", "off", "mesh", "geogram_ascii", "xyz"], 3)
+        meshes.append(m)
+    for kind in (["surf+edges", "tet"] if quick else ["surf+edges", "tet", "tri", "tethex", "polyline", "cloud", "hex", "mixed"] * 3):
+        m = gen_mesh(ctx.rng, kind)
+        m["cfg"] = {}
+        m["gattrs"] = gen_attrs(ctx.rng, m, stress=True)
+        m["geo_only"] = True
+        meshes.append(m)
     jobs = []
     for m in meshes:
-        for fmt in TEXT_FORMATS:
+        for fmt in (["geogram_ascii"] if m.get("geo_only") else m.get("only_fmts") or TEXT_FORMATS):
             mm = m
             if fmt == "geogram_ascii" and "gattrs" in m:
                 mm = dict(m, attrs=m["gattrs"])
             jobs.append(save_job(mm, fmt, m.get("cfg") or {}, m.get("ignore")))
-        if m["F"] and "faces" not in (m.get("ignore") or []):
+        if m["F"] and "faces" not in (m.get("ignore") or []) and not m.get("geo_only") and not m.get("only_fmts"):
             jobs.append(save_job(m, "stl", m.get("cfg") or {}, m.get("ignore")))
     # the witnesses of the known findings / _refuted theorems are replayed on every run
     sqv = [[f2b(0.0), f2b(0.0), f2b(0.0)], [f2b(1.0), f2b(0.0), f2b(0.0)], [f2b(1.0), f2b(1.0), f2b(0.0)], [f2b(0.0), f2b(1.0), f2b(0.0)]]
@@ -1697,7 +1860,35 @@ def run(ctx):
             lv_dbg.append((fmt, kind, L2, ld))
     extra_batches.append(("loadvar", lv_terms, "check_load", "(fmt * list zline * option zraw * option (option string))"))
 
-    n_unknown = 0
+    # ---- sessions: two meshes saved and loaded several times in ONE process, in every format (objects and calls of a session do
+    # not influence each other; call forms; explicit dim; upper-case extension; calls that raise in between; second generation)
+    sess_jobs = gen_sessions(ctx.rng, 2 if quick else 14)
+    sess_res = run_jobs(sess_jobs)
+    sess_fails = []
+    dim_terms = []
+    n_sess_skipped = 0
+    for sj, sr in zip(sess_jobs, sess_res):
+        ctx.count("session (2 meshes, ~6 saves, ~14 loads in one process): " + sj["fmt"])
+        if "build_exc" in sr:
+            n_sess_skipped += 1
+            ctx.count("SKIPPED by the harness: session mesh could not be built")
+            continue
+        for step, msg in oracle_session(sj, sr):
+            sess_fails.append((sj, sr, step, msg))
+        for c in sr.get("checks") or []:
+            if len(c) > 2 and c[2] == "soft":
+                ctx.count("session, informative: %s: %s" % (c[0], "yes" if c[1] else "no"))
+        if sj["fmt"] != "stl" and "A" in sr and "file" in sr["A"] and printable(sr["A"]["file"]["text"].replace("\n", " ")):
+            geo = sj["fmt"] == "geogram_ascii"
+            toks = tokenize_geogram(sr["A"]["file"]["text"]) if geo else tokenize(sr["A"]["file"]["text"], sj["fmt"])
+            for d, cls, same in sr.get("dims") or []:
+                if not cls.startswith("EXC"):
+                    dim_terms.append("(%s, %s, %s, %s)" % (FMT_COQ[sj["fmt"]], lines_term(toks), z(d), cstr(cls)))
+    extra_batches.append(("loaddim", dim_terms, "check_load_dim", "(fmt * list zline * Z * string)"))
+    ctx.obligation("harness: %d of %d sessions could not be built, at most 20%% allowed" % (n_sess_skipped, len(sess_jobs)), "harness",
+                   n_sess_skipped <= 0.2 * len(sess_jobs), "")
+
+    n_unknown = len(sess_fails)
     for idx, msg in fails:
         if not ctx.known(classify(jobs[idx], res[idx], msg)):
             n_unknown += 1
@@ -1707,7 +1898,8 @@ def run(ctx):
     n_unknown += len(fails_files)
     ctx.obligation("oracle: every save -> load, every file of an independent writer and every third-party file is handled as the property says "
                    "(failures outside the listed known findings: %d; inside: %d)" % (n_unknown, len(fails) + len(fails_load) - n_unknown + len(fails_files)),
-                   "oracle-on-implementation", n_unknown == 0, "%d failing cases, %d of unknown class" % (len(fails) + len(fails_load) + len(fails_files), n_unknown))
+                   "oracle-on-implementation", n_unknown == 0, "%d failing cases, %d of unknown class (sessions: %d)"
+                   % (len(fails) + len(fails_load) + len(fails_files) + len(sess_fails), n_unknown, len(sess_fails)))
     frac = skipped["n"] / max(1, skipped["total"])
     ctx.obligation("harness: %d of %d save/load cases skipped (%.1f%%), at most 5%% allowed; cases explored > 0" % (skipped["n"], skipped["total"], 100 * frac),
                    "harness", frac <= 0.05 and ctx.evaluations > 0, "skips by reason are in input_distribution under 'SKIPPED by the harness'")
@@ -1725,7 +1917,7 @@ def run(ctx):
             ("stl", stl_terms, "check_stl", "(smesh * option (list sfld) * option (list (list (list Z))))"),
         ] + extra_batches
         with cf.ThreadPoolExecutor(max_workers=len(batches)) as ex:
-            futs = {name: ex.submit(ctx.run_cases, name, HEADER, terms, fn, case_type=ty, shard=shard_of(terms))
+            futs = {name: ex.submit(ctx.run_cases, name, HEADER, terms, fn, case_type=ty, shard=shard_of(terms), timeout=600 if quick else 1500)
                     for name, terms, fn, ty in batches}
         bads = {name: f.result() for name, f in futs.items()}
         bad_s, bad_l, bad_r, bad_t = bads["save"], bads["load"], bads["roundtrip"], bads["stl"]
@@ -1752,6 +1944,14 @@ def run(ctx):
             continue
         rep_load.add(key)
         ctx.violation("%s file of an independent writer (%s): %s" % (fmt, label, msg), {"load_job": j2, "want": want, "label": label, "class": key}, key=key)
+    rep_sess = set()
+    for sj, sr, step, msg in sorted(sess_fails, key=lambda t: len(json.dumps(t[0]))):
+        key = "%s/session/%s" % (sj["fmt"], re.sub(r"[^a-zA-Z ]", "", msg.split(":")[0])[:60].strip().replace(" ", "-"))
+        if key in rep_sess or sum(1 for k in rep_sess if k.startswith(sj["fmt"] + "/")) >= 3:
+            continue
+        rep_sess.add(key)
+        ctx.violation("%s, several saves and loads in one process, %s: %s" % (sj["fmt"], step, msg),
+                      {"session_job": sj, "step": step, "class": key}, key=key)
     for msg in fails_files:
         ctx.violation("file written by another program: " + msg, {"file": msg}, key="thirdparty/" + msg.split(":")[0])
     reported = set()
@@ -1790,6 +1990,17 @@ def replay(ctx, data):
         m = oracle_load(data["load_job"]["fmt"], r.get("load"), data["want"])
         print("FAILS: " + m if m else "passes")
         return 1 if m else 0
+    if "session_job" in data:
+        r = run_jobs([data["session_job"]])[0]
+        print("session:", json.dumps({k: v for k, v in data["session_job"].items() if k != "meshes"}))
+        print("meshes:", json.dumps(data["session_job"]["meshes"])[:1500])
+        print("checks:", json.dumps(r.get("checks")), "dims:", json.dumps(r.get("dims")), "failed calls:", json.dumps(r.get("failed_calls")))
+        ms = oracle_session(data["session_job"], r)
+        for step, m in ms:
+            print("FAILS (%s): %s" % (step, m))
+        if not ms:
+            print("passes")
+        return 1 if ms else 0
     if "job" not in data:
         print("replay file names no concrete input:", json.dumps(data)[:400])
         return 1
